@@ -1,44 +1,521 @@
 package exec
 
 import (
+	"fmt"
 	"go/types"
+	"sort"
 
 	"golang.org/x/tools/go/ssa"
 )
 
-// Tier B (goroutines, channels, scheduler) — see sched.go once enabled.
+// Tier B: goroutines, channels, select, timers and a cooperative scheduler.
+//
+// Every interpreted goroutine runs in its own Go goroutine, but only the holder of the baton executes.
+// A goroutine gives the baton up when it blocks (channel operation, select, lock, a model call that
+// waits), when it finishes, or at an explicit verif.Yield().  The scheduler then chooses the next
+// goroutine among the ready ones - a forked choice, so every order is explored - or, if none is ready,
+// lets the environment act (the earliest pending timer fires, a cancellable context ends).  No ready
+// goroutine and no environment action while the main goroutine is blocked is a deadlock outcome.
 
 type access struct{}
 
 type Chan struct {
-	buf []Value
-	cap int
+	ID     int
+	cap    int
+	buf    []Value
 	closed bool
+	// senders blocked on an unbuffered/full channel
+	sendq []*sendWait
+	// recvWaiting counts receivers currently blocked (for unbuffered rendezvous)
+	recvWaiting int
+	elem   types.Type
+	timer  *timerObj
 }
 
-type scheduler struct{}
+type sendWait struct {
+	v     Value
+	taken bool
+	g     *goroutine
+}
 
-func (s *scheduler) killAll()    {}
-func (s *scheduler) finishMain() {}
+type timerObj struct {
+	id      int
+	due     int64
+	ch      *Chan
+	fired   bool
+	stopped bool
+	fn      Value // AfterFunc callback
+}
+
+type goroutine struct {
+	id     int
+	name   string
+	wake   chan bool
+	ready  func() bool // nil: runnable
+	done   bool
+	isMain bool
+	started bool
+	start  func()
+}
+
+type killSignal struct{}
+
+type scheduler struct {
+	ex      *Exec
+	gs      []*goroutine
+	cur     *goroutine
+	killed  bool
+	abort   interface{} // engine signal raised inside a non-main goroutine
+	timers  []*timerObj
+	now     int64
+	ctxs    []*Opaque // cancellable contexts the environment may end
+	nextID  int
+	switches int
+}
+
+func (ex *Exec) scheduler() *scheduler {
+	if ex.sched == nil {
+		s := &scheduler{ex: ex, now: 1_000_000_000}
+		main := &goroutine{id: 0, name: "main", wake: make(chan bool), isMain: true, started: true}
+		s.gs = []*goroutine{main}
+		s.cur = main
+		ex.sched = s
+	}
+	return ex.sched
+}
+
+func (s *scheduler) killAll() {
+	s.killed = true
+	for _, g := range s.gs {
+		if !g.isMain && g.started && !g.done {
+			select {
+			case g.wake <- true:
+			default:
+			}
+		}
+	}
+}
+
+// readyList: goroutines that can run now (excluding none).
+func (s *scheduler) readyList() []*goroutine {
+	var r []*goroutine
+	for _, g := range s.gs {
+		if g.done {
+			continue
+		}
+		if g.ready == nil || g.ready() {
+			r = append(r, g)
+		}
+	}
+	return r
+}
+
+// envStep lets the environment act once; returns false if nothing is pending.
+func (s *scheduler) envStep() bool {
+	ex := s.ex
+	type ev struct {
+		kind string
+		t    *timerObj
+		c    *Opaque
+	}
+	var evs []ev
+	// earliest pending timer(s)
+	var minDue int64 = -1
+	for _, t := range s.timers {
+		if !t.fired && !t.stopped && (minDue < 0 || t.due < minDue) {
+			minDue = t.due
+		}
+	}
+	for _, t := range s.timers {
+		if !t.fired && !t.stopped && t.due == minDue {
+			evs = append(evs, ev{kind: "timer", t: t})
+		}
+	}
+	for _, c := range s.ctxs {
+		if done, _ := c.Fields["done"].(bool); !done {
+			if can, _ := c.Fields["envCancellable"].(bool); can {
+				evs = append(evs, ev{kind: "ctx", c: c})
+			}
+		}
+	}
+	if len(evs) == 0 {
+		return false
+	}
+	i := ex.chooseN("env", len(evs))
+	e := evs[i]
+	switch e.kind {
+	case "timer":
+		s.fireTimer(e.t)
+	case "ctx":
+		ex.cancelCtx(e.c, "context deadline exceeded")
+	}
+	return true
+}
+
+func (s *scheduler) fireTimer(t *timerObj) {
+	if t.due > s.now {
+		s.now = t.due
+	}
+	t.fired = true
+	if t.ch != nil {
+		t.ch.buf = append(t.ch.buf, s.ex.timeValue(s.now))
+	}
+	if t.fn != nil {
+		s.ex.spawn(t.fn, nil, "afterfunc")
+	}
+	s.ex.note("timer-fired")
+}
+
+// block parks the current goroutine until pred holds, running others meanwhile.
+func (s *scheduler) block(pred func() bool, what string) {
+	g := s.cur
+	g.ready = pred
+	s.dispatch(g, what)
+	g.ready = nil
+}
+
+// yield offers the baton to the others (g stays runnable).
+func (s *scheduler) yield(what string) {
+	g := s.cur
+	g.ready = nil
+	if len(s.readyList()) <= 1 {
+		return
+	}
+	s.dispatch(g, what)
+}
+
+// dispatch picks the next goroutine; returns when g holds the baton again.
+func (s *scheduler) dispatch(g *goroutine, what string) {
+	ex := s.ex
+	for {
+		rl := s.readyList()
+		if len(rl) == 0 {
+			if s.envStep() {
+				continue
+			}
+			// nothing can run
+			if g.isMain || !s.mainDone() {
+				ex.deadlock(what)
+			}
+		}
+		sort.SliceStable(rl, func(i, j int) bool { return rl[i].id < rl[j].id })
+		idx := 0
+		if len(rl) > 1 {
+			s.switches++
+			if s.switches > 64 {
+				panic(engineErr("scheduler: more than 64 scheduling choices on one path"))
+			}
+			idx = ex.chooseN("sched@"+what, len(rl))
+		}
+		next := rl[idx]
+		if next == g {
+			return
+		}
+		s.cur = next
+		if !next.started {
+			next.started = true
+			go next.start()
+		} else {
+			next.wake <- true
+		}
+		// wait for the baton
+		<-g.wake
+		if s.killed {
+			panic(killSignal{})
+		}
+		if s.abort != nil && g.isMain {
+			a := s.abort
+			s.abort = nil
+			panic(a)
+		}
+		s.cur = g
+		if g.ready == nil || g.ready() {
+			return
+		}
+	}
+}
+
+func (s *scheduler) mainDone() bool { return s.gs[0].done }
+
+func (ex *Exec) deadlock(what string) {
+	if ex.replaying() {
+		panic(pathEnd{"deadlock"})
+	}
+	ex.violation("deadlock", "no-deadlock", "all goroutines blocked at "+what+" and no timer or context can fire", nil, "")
+	panic(pathEnd{"deadlock"})
+}
+
+// spawn creates a goroutine running fn(args).
+func (ex *Exec) spawn(fn Value, args []Value, name string) *goroutine {
+	s := ex.scheduler()
+	s.nextID++
+	g := &goroutine{id: s.nextID, name: name, wake: make(chan bool)}
+	g.start = func() {
+		defer func() {
+			r := recover()
+			g.done = true
+			if r != nil {
+				if _, ok := r.(killSignal); ok {
+					return
+				}
+				// engine signals and uncaught interpreted panics are delivered to main
+				if gp, isGo := r.(goPanic); isGo {
+					r = goPanic{val: gp.val, msg: "in goroutine " + g.name + ": " + gp.msg}
+				}
+				s.abort = r
+				s.gs[0].wake <- true
+				return
+			}
+			// hand the baton on
+			s.afterExit(g)
+		}()
+		ex.call(fn, args, nil, nil)
+	}
+	s.gs = append(s.gs, g)
+	return g
+}
+
+// afterExit: a finished goroutine passes the baton.
+func (s *scheduler) afterExit(g *goroutine) {
+	for {
+		rl := s.readyList()
+		if len(rl) == 0 {
+			if s.envStep() {
+				continue
+			}
+			// wake main so it can notice the deadlock / finish
+			s.cur = s.gs[0]
+			s.gs[0].wake <- true
+			return
+		}
+		sort.SliceStable(rl, func(i, j int) bool { return rl[i].id < rl[j].id })
+		idx := 0
+		if len(rl) > 1 {
+			idx = s.ex.chooseN("sched@exit", len(rl))
+		}
+		next := rl[idx]
+		s.cur = next
+		if !next.started {
+			next.started = true
+			go next.start()
+		} else {
+			next.wake <- true
+		}
+		return
+	}
+}
+
+// finishMain: the harness returned; let every runnable goroutine finish.
+func (s *scheduler) finishMain() {
+	s.quiesce()
+}
+
+// quiesce runs the other goroutines until none is ready (without letting the environment act).
+// Returns the number of goroutines still blocked.
+func (s *scheduler) quiesce() int {
+	g := s.cur
+	for {
+		others := 0
+		for _, o := range s.readyList() {
+			if o != g {
+				others++
+			}
+		}
+		if others == 0 {
+			break
+		}
+		// park main until the others cannot run any more
+		g.ready = func() bool {
+			for _, o := range s.gs {
+				if o != g && !o.done && (o.ready == nil || o.ready()) {
+					return false
+				}
+			}
+			return true
+		}
+		s.dispatchNoEnv(g)
+		g.ready = nil
+	}
+	blocked := 0
+	for _, o := range s.gs {
+		if o != g && !o.done {
+			blocked++
+		}
+	}
+	return blocked
+}
+
+func (s *scheduler) dispatchNoEnv(g *goroutine) {
+	for {
+		var rl []*goroutine
+		for _, o := range s.readyList() {
+			rl = append(rl, o)
+		}
+		if len(rl) == 0 {
+			return
+		}
+		sort.SliceStable(rl, func(i, j int) bool { return rl[i].id < rl[j].id })
+		idx := 0
+		if len(rl) > 1 {
+			idx = s.ex.chooseN("sched@quiesce", len(rl))
+		}
+		next := rl[idx]
+		if next == g {
+			return
+		}
+		s.cur = next
+		if !next.started {
+			next.started = true
+			go next.start()
+		} else {
+			next.wake <- true
+		}
+		<-g.wake
+		if s.killed {
+			panic(killSignal{})
+		}
+		if s.abort != nil {
+			a := s.abort
+			s.abort = nil
+			panic(a)
+		}
+		s.cur = g
+		if g.ready == nil || g.ready() {
+			return
+		}
+	}
+}
 
 func (ex *Exec) raceRead(a **access, fr *frame)  {}
 func (ex *Exec) raceWrite(a **access, fr *frame) {}
 
 func (ex *Exec) goStmt(fn Value, args []Value, in *ssa.Go, fr *frame) {
-	panic(engineErr("go statement not supported in tier A at %s", fr.pos()))
+	name := "go@" + fr.shortPos(in)
+	ex.spawn(fn, args, name)
+	ex.note("goroutine-spawned")
 }
 
 func (ex *Exec) makeChan(in *ssa.MakeChan, size Value) Value {
 	n, _ := size.(int64)
-	return &Chan{cap: int(n)}
+	ex.nextID++
+	return &Chan{ID: ex.nextID, cap: int(n), elem: in.Type().Underlying().(*types.Chan).Elem()}
 }
 
-func (ex *Exec) chanSend(ch, v Value, fr *frame) {
-	panic(engineErr("channel send not supported in tier A at %s", fr.pos()))
+func (ex *Exec) newChan(cap int, elem types.Type) *Chan {
+	ex.nextID++
+	return &Chan{ID: ex.nextID, cap: cap, elem: elem}
+}
+
+// canRecv: a receive on c would not block.
+func (c *Chan) canRecv() bool {
+	if c == nil {
+		return false
+	}
+	if len(c.buf) > 0 || c.closed {
+		return true
+	}
+	for _, s := range c.sendq {
+		if !s.taken {
+			return true
+		}
+	}
+	return false
+}
+
+func (c *Chan) canSend() bool {
+	if c == nil {
+		return false
+	}
+	if c.closed {
+		return true // will panic
+	}
+	if len(c.buf) < c.cap {
+		return true
+	}
+	return c.cap == 0 && c.recvWaiting > 0
+}
+
+func (ex *Exec) doRecv(c *Chan) (Value, bool) {
+	if len(c.buf) > 0 {
+		v := c.buf[0]
+		c.buf = c.buf[1:]
+		// a blocked sender on a full buffered channel can now proceed
+		for _, s := range c.sendq {
+			if !s.taken && len(c.buf) < c.cap {
+				s.taken = true
+				c.buf = append(c.buf, s.v)
+			}
+		}
+		return v, true
+	}
+	for _, s := range c.sendq {
+		if !s.taken {
+			s.taken = true
+			return s.v, true
+		}
+	}
+	if c.closed {
+		var z Value
+		if c.elem != nil {
+			z = zero(c.elem)
+		}
+		return z, false
+	}
+	panic(engineErr("doRecv on a channel that is not ready"))
 }
 
 func (ex *Exec) chanRecv(ch Value, commaOk bool, t types.Type, fr *frame) Value {
-	panic(engineErr("channel receive not supported in tier A at %s", fr.pos()))
+	c, _ := ch.(*Chan)
+	s := ex.scheduler()
+	if c == nil {
+		s.block(func() bool { return false }, "recv-nil-chan")
+	}
+	if !c.canRecv() {
+		c.recvWaiting++
+		s.block(func() bool { return c.canRecv() }, "recv@"+fr.shortPosSafe())
+		c.recvWaiting--
+	}
+	v, ok := ex.doRecv(c)
+	if commaOk {
+		return Tuple{v, ok}
+	}
+	return v
+}
+
+func (fr *frame) shortPosSafe() string {
+	if fr == nil || fr.curInstr == nil {
+		return "?"
+	}
+	return fr.shortPos(fr.curInstr)
+}
+
+func (ex *Exec) chanSend(ch, v Value, fr *frame) {
+	c, _ := ch.(*Chan)
+	s := ex.scheduler()
+	if c == nil {
+		s.block(func() bool { return false }, "send-nil-chan")
+	}
+	if c.closed {
+		ex.goPanicf("send on closed channel")
+	}
+	if len(c.buf) < c.cap {
+		c.buf = append(c.buf, v)
+		return
+	}
+	// rendezvous / full buffer: wait until a receiver takes the value
+	w := &sendWait{v: v, g: s.cur}
+	c.sendq = append(c.sendq, w)
+	s.block(func() bool { return w.taken || c.closed }, "send@"+fr.shortPosSafe())
+	if !w.taken && c.closed {
+		ex.goPanicf("send on closed channel")
+	}
+	// drop the entry
+	for i, x := range c.sendq {
+		if x == w {
+			c.sendq = append(c.sendq[:i], c.sendq[i+1:]...)
+			break
+		}
+	}
 }
 
 func (ex *Exec) chanClose(ch Value, fr *frame) {
@@ -52,8 +529,105 @@ func (ex *Exec) chanClose(ch Value, fr *frame) {
 	c.closed = true
 }
 
+// selectOp implements the select statement.
 func (ex *Exec) selectOp(in *ssa.Select, fr *frame) Value {
-	panic(engineErr("select not supported in tier A at %s", fr.pos()))
+	s := ex.scheduler()
+	type st struct {
+		c    *Chan
+		send bool
+		v    Value
+	}
+	var states []st
+	for _, sc := range in.States {
+		c, _ := fr.get(sc.Chan).(*Chan)
+		x := st{c: c, send: sc.Dir == types.SendOnly}
+		if x.send {
+			x.v = fr.get(sc.Send)
+		}
+		states = append(states, x)
+	}
+	readyIdx := func() []int {
+		var r []int
+		for i, x := range states {
+			if x.c == nil {
+				continue
+			}
+			if x.send {
+				if x.c.canSend() {
+					r = append(r, i)
+				}
+			} else if x.c.canRecv() {
+				r = append(r, i)
+			}
+		}
+		return r
+	}
+	ri := readyIdx()
+	if len(ri) == 0 {
+		if !in.Blocking {
+			return ex.selectResult(in, -1, nil, false)
+		}
+		for _, x := range states {
+			if x.c != nil && !x.send {
+				x.c.recvWaiting++
+			}
+		}
+		s.block(func() bool { return len(readyIdx()) > 0 }, "select@"+fr.shortPosSafe())
+		for _, x := range states {
+			if x.c != nil && !x.send {
+				x.c.recvWaiting--
+			}
+		}
+		ri = readyIdx()
+	}
+	pick := ri[0]
+	if len(ri) > 1 {
+		// Go chooses uniformly among the ready cases: every choice is explored
+		pick = ri[ex.chooseN("select@"+fr.shortPosSafe(), len(ri))]
+	}
+	x := states[pick]
+	if x.send {
+		if x.c.closed {
+			ex.goPanicf("send on closed channel")
+		}
+		if len(x.c.buf) < x.c.cap {
+			x.c.buf = append(x.c.buf, x.v)
+		} else {
+			// rendezvous with a waiting receiver: hand over through the send queue
+			w := &sendWait{v: x.v, g: s.cur}
+			x.c.sendq = append(x.c.sendq, w)
+			s.block(func() bool { return w.taken }, "select-send")
+			for i, y := range x.c.sendq {
+				if y == w {
+					x.c.sendq = append(x.c.sendq[:i], x.c.sendq[i+1:]...)
+					break
+				}
+			}
+		}
+		return ex.selectResult(in, pick, nil, false)
+	}
+	v, ok := ex.doRecv(x.c)
+	return ex.selectResult(in, pick, v, ok)
+}
+
+func (ex *Exec) selectResult(in *ssa.Select, idx int, recv Value, recvOk bool) Value {
+	tt := in.Type().(*types.Tuple)
+	res := make(Tuple, tt.Len())
+	res[0] = int64(idx)
+	res[1] = recvOk
+	// one slot per receive case, in order
+	k := 2
+	for i, sc := range in.States {
+		if sc.Dir == types.RecvOnly {
+			if i == idx && recv != nil {
+				res[k] = recv
+			} else {
+				res[k] = zero(tt.At(k).Type())
+			}
+			k++
+		}
+	}
+	return res
 }
 
 // opaqueMethod dispatches a method call on a model object.
@@ -65,3 +639,9 @@ func (ex *Exec) opaqueMethod(op *Opaque, name string, args []Value, caller *fram
 }
 
 var opaqueMethods = map[string]func(ex *Exec, caller *frame, op *Opaque, args []Value) Value{}
+
+func (ex *Exec) timeValue(ns int64) Value {
+	return ex.mkTime(ns)
+}
+
+var _ = fmt.Sprintf
